@@ -29,7 +29,15 @@ where
     // Unlike our UpdateConfig lock, our UpdaterThread lock does not wait
     // if an updater thread is already running. We use try_lock instead
     // of lock to error out immediately.
+    #[cfg(feature = "verif-hooks")]
+    crate::verif_hooks::before_lock(crate::verif_hooks::LockId::Updater);
+    #[cfg(feature = "verif-hooks")]
+    let _released = crate::verif_hooks::Released::new(crate::verif_hooks::LockId::Updater);
     let lock = updater_lock().try_lock();
+    #[cfg(feature = "verif-hooks")]
+    let _depth = lock
+        .is_ok()
+        .then(|| crate::verif_hooks::DepthGuard::new(crate::verif_hooks::LockId::Updater));
     match lock {
         Ok(lock) => f(&lock),
         Err(std::sync::TryLockError::WouldBlock) => {
